@@ -92,7 +92,7 @@ def render(shape, v):
 
 
 def leaf_typed(shape):
-    return shape[0] in ("str", "int", "float", "bool", "enum", "lit", "posint", "nnfloat", "unit", "rstr")
+    return shape[0] in ("str", "int", "float", "bool", "enum", "lit", "lit2", "posint", "nnfloat", "unit", "rstr")
 
 
 # ------------------------------------------------------------------------------------------------- strategies
